@@ -74,6 +74,24 @@ def run(ctx):
             # A = run on the edited file, B = run with -c on the full file; scope = A's atoms
             rels.append(relations.relate("Part", ra, chain_filter(text, set(sub)), rb, text, scope_all_a=True,
                                          textcmp=True, meta=dict(meta, pdb=text)))
+            # the same with a titrate-only list naming residues of the selected chains (blank chain: written "_")
+            tit = []
+            for ln in text.splitlines():
+                if C.is_atom(ln) and ln[:4] == "ATOM" and ln[21] in sub and ln[17:20] in ("ASP", "GLU", "LYS", "ARG", "HIS", "TYR"):
+                    e = f"{'_' if ln[21] == ' ' else ln[21]}:{int(ln[22:26])}{ln[26].strip()}"
+                    if e not in tit:
+                        tit.append(e)
+            if tit and (ctx.thorough() or len(sub) == 1):
+                lst = ",".join(tit[:: max(1, len(tit) // 4)][:5])
+                ra2 = runner.run(chain_filter(text, set(sub)), ["-q", "-i", lst])
+                rb2 = runner.run(text, ["-q", "-i", lst] + opts)
+                ctx.count()
+                if ra2.exc is None and rb2.exc is None:
+                    rels.append(relations.relate("Part", ra2, chain_filter(text, set(sub)), rb2, text, scope_all_a=True, textcmp=True,
+                                                 meta=dict(meta, pdb=text, input=name + " -i " + lst)))
+                elif (ra2.exc is None) != (rb2.exc is None):
+                    ctx.violation(f"run:exception-mismatch:-i:{name}:{''.join(sub)}", f"{meta} -i {lst}: edited file -> {ra2.exc!r}; -c -> {rb2.exc!r}",
+                                  {"pdb": text, "chains": list(sub), "optargs": ["-i", lst]})
     viol = relations.validate(ctx, rels, ["SameConfs", "Part", "TextSame"], "chain selection vs edited file")
     for inv, lst in sorted(viol.items()):
         for rel in lst:
